@@ -135,7 +135,7 @@ def replay_universe(ctx, pools, universe, recs):
 
 
 def judge(ctx, recs, report=True):
-    send = [{k: v for k, v in r.items() if k != "what"} for r in recs]
+    send = [{k: v for k, v in r.items() if k not in ("what", "spec")} for r in recs]
     # a SPECBUG line (Python disagrees with the specification's model of Python) raises MachineryError
     verdicts, diverge, _t = batch_verdicts(ctx, "Trace_Compare", send, chunk=5000)
     nbad = 0
@@ -200,9 +200,22 @@ def run(ctx):
 
 
 def replay(ctx, obj):
+    """rebuild the two objects from their descriptions (pointer-like cdata as casts of the recorded address),
+    observe the pair again on the current tree and judge it"""
+    old = obj["replay"]
+    pools = mc.Pools(ctx.rng)
     ctx.cov["states"] = ctx.cov["transitions"] = 1
-    nbad, _d = judge(ctx, [obj["replay"]])
-    print("re-validated recorded pair %r: %s" % (obj["replay"].get("what"), "rejected by the ideal" if nbad else "accepted"))
+    objs = []
+    for side, spec in zip((old["a"], old["b"]), old["spec"]):
+        o = mc.Obj(mc.rebuild(pools.ffi, spec), side["cd"], side["ptr"], side["v"],
+                   mc.dec_plain(spec["plain"]) if spec.get("plain") and side["v"]["k"] != "opaque" else None, "rebuilt")
+        objs.append(o)
+    if old["same"]:
+        objs[1] = objs[0]
+    rec = pools.observe(objs[0], objs[1])
+    nbad, _d = judge(ctx, [rec])
+    print("re-executed pair %r: outcomes %r, %s" % (old.get("what"), rec["res"],
+                                                     "rejected by the ideal" if nbad else "accepted"))
 
 
 def selftest(ctx):
